@@ -20,6 +20,14 @@ THOROUGH_SEEDS = 2
 
 
 def cases(tier, seed):
+    from .C03 import add_via
+    cs = _cases(tier, seed)
+    head = [c for c in cs if c['scen'] == 'tt_getitem']
+    rest = [c for c in cs if c['scen'] != 'tt_getitem']
+    return add_via(head, 8 if tier == 'quick' else 5, ('tt_getitem',)) + rest
+
+
+def _cases(tier, seed):
     rng = random.Random(seed + 8)
     th = tier == 'thorough'
     cs = []
